@@ -82,7 +82,7 @@ func (g *gen) step() {
 	h, r := g.h, g.r
 	c := h.cs[r.Intn(len(h.cs))]
 	inGroup := c.c.HasGroup() && !c.c.Dead
-	switch r.Pick(22, 12, 10, 12, 3, 4, 3, 3, 3, 3, 2, 1, 2, 1) {
+	switch r.Pick(22, 12, 10, 12, 3, 4, 3, 3, 3, 3, 2, 1, 2, 1, 3, 3) {
 	case 0: // serve a queue
 		if !h.pumpAny() {
 			if ts := h.pendingTimers(); len(ts) > 0 {
@@ -219,6 +219,46 @@ func (g *gen) step() {
 		h.obs()
 	case 13:
 		h.quiesce()
+	case 14:
+		// a permission change with an offer in flight: an operator takes (or
+		// gives) `present`, the publisher's loop applies the change (its
+		// permissionsChangedAction is still queued) and then reads an offer
+		// that replaces one of its streams, or a close
+		ups := g.ownUps(c)
+		if len(ups) == 0 || !inGroup {
+			return
+		}
+		var op *cli
+		for _, o := range h.cs {
+			if !o.c.Dead && o.c.HasGroup() && o.c.GroupName() == c.c.GroupName() && has(o.c.Permissions(), "op") {
+				op = o
+			}
+		}
+		if op == nil {
+			return
+		}
+		h.perm(op, c.h, r.Chance(1, 4))
+		if r.Chance(3, 4) {
+			h.pump(c)
+		}
+		if len(g.pool) > 0 || r.Chance(1, 4) {
+			h.closeUp(c, g.pick(ups))
+		} else {
+			h.offer(c, g.freshId(), r.Intn(3), g.pick(ups), "g")
+		}
+	case 15:
+		// change the request on what is already established
+		if !inGroup {
+			return
+		}
+		labs := []int{r.Intn(3)}
+		if labs[0] != 0 && r.Chance(1, 2) {
+			labs = append(labs, 0)
+		}
+		h.request(c, labs, [][]string{g.randReq(), g.randReq()}[:len(labs)], make([]bool, len(labs)))
+		if r.Chance(1, 2) {
+			h.quiesce()
+		}
 	}
 }
 
